@@ -115,7 +115,7 @@ def main(tier, seed):
     hs = hs + [h for h in R.long_histories(8 if tier == "quick" else 11) if h not in seen_h]
     # ... and, for the first two layouts only, every history up to 7 (thorough 9) words over each three-word alphabet
     seen_h = set(hs)
-    hs3 = [h for h in R.long_histories(6 if tier == "quick" else 9, pairs=("dtx", "dat", "dax", "atx")) if h not in seen_h]
+    hs3 = [h for h in R.long_histories(6 if tier == "quick" else 8, pairs=("dtx", "dat", "dax", "atx")) if h not in seen_h]
     # only maximal histories need to run when shutdown is explored at every prefix: a history is a prefix of
     # its extensions, but shutdown in each mode at each point is part of the alphabet, so run them all
     items = []
@@ -129,7 +129,7 @@ def main(tier, seed):
     res = core.Result()
     for d in core.parallel("mc.props.c05", "work", items, seed=seed):
         res.merge(d)
-    res.bounds.update(three_word_history_depth=6 if tier == "quick" else 9, two_word_history_depth=8 if tier == "quick" else 11, history_depth=depth, layouts=len(layouts(tier)), histories_per_layout=len(hs), alphabet="boot word + one driver-station word per loop iteration from {disabled, autonomous, teleop, test}; shutdown after every history")
+    res.bounds.update(three_word_history_depth=6 if tier == "quick" else 8, two_word_history_depth=8 if tier == "quick" else 11, history_depth=depth, layouts=len(layouts(tier)), histories_per_layout=len(hs), alphabet="boot word + one driver-station word per loop iteration from {disabled, autonomous, teleop, test}; shutdown after every history")
     rule = (
         "every driver-station history up to the stated depth (boot word, then one word per control-loop iteration, then endCompetition) "
         "for every generated robot layout, executed through the real MagicRobot.startCompetition() in a baton-serialized thread; oracle = loop "
